@@ -467,7 +467,10 @@ def left(text, num_chars=1):
 def len_(arg):
     # Excel reference: https://support.microsoft.com/en-us/office/
     #   len-lenb-functions-29236f94-cedc-429d-affd-b5e33d2c67cb
-    return 0 if arg is None else len(str(arg))
+    if isinstance(arg, float) and arg.is_integer():
+        # a whole number held as a float is counted with its '.0'
+        return len(str(arg))
+    return len(coerce_to_string(arg))
 
 
 # def lenb(text):
